@@ -80,12 +80,12 @@ def run(tier, seed):
     names = []
     for c in carriers:
         vt, bits, kind = unit_l0bits.CARRIERS[c]
-        w = min(bits // 8 + 1, 4) if tier == 'quick' else bits // 8 + 1
+        w = min(bits // 8 + 1, 3)      # the contract clauses are value independent; the window only has to cover every alignment of the cursor
         text += harness(c, vt, w)
         names += ['contract_put_' + c, 'contract_parse_' + c]
     text += CALLERS
     names += ['caller_decode_uses_parse_contract', 'caller_encode_uses_put_contract']
-    out = kani_engine.run_kani(text, names, tag='l0contract', timeout=14000, cfgs=('rtcm_rs_verif_contracts',))
+    out = kani_engine.run_kani(text, names, tag='l0contract', timeout=14000, cfgs=('rtcm_rs_verif_contracts',), jobs=5)    # CBMC's contract instrumentation needs several GB per harness
     ur.cmds.append(out['cmd'])
     ur.wall_s = out['wall_s']
     for h in names:
@@ -102,6 +102,6 @@ def run(tier, seed):
         ur.obligs.append(ob)
     ur.functions = [{'name': 'Assembler::put (in-place kani contract)', 'lo': 0, 'hi': 0, 'origin': 'src/df/assembler.rs', 'path': 'put', 'n_requires': 1, 'n_ensures': 2, 'n_loops': 1},
                     {'name': 'Parser::parse (in-place kani contract)', 'lo': 0, 'hi': 0, 'origin': 'src/df/parser.rs', 'path': 'parse', 'n_requires': 1, 'n_ensures': 2, 'n_loops': 1}]
-    ur.bounded.append('l0contract: buffer window = carrier bytes + 1 (the contract proofs are value-independent; the value-level postconditions are in unit l0bits)')
+    ur.bounded.append('l0contract: buffer window = min(carrier bytes + 1, 3) (the contract proofs are value-independent; the value-level postconditions are in unit l0bits)')
     ur.trusted.append('Kani function contracts (-Z function-contracts, CBMC dfcc); stub_verified replaces the callee by its contract')
     return ur
